@@ -1003,8 +1003,9 @@ impl Walrus {
         let mut entries_parsed = 0u32;
         let mut saw_tail = false;
 
+        let mut budget_exhausted = false;
         for (plan_idx, read_plan) in plan.iter().enumerate() {
-            if entries.len() >= MAX_BATCH_ENTRIES {
+            if entries.len() >= MAX_BATCH_ENTRIES || budget_exhausted {
                 break;
             }
             let buffer = &buffers[plan_idx];
@@ -1052,6 +1053,9 @@ impl Walrus {
                     .checked_add(data_size)
                     .unwrap_or(usize::MAX);
                 if next_total > max_bytes && !entries.is_empty() {
+                    // Stop the whole read: a smaller entry from a later range must not be
+                    // returned (and committed) ahead of this one.
+                    budget_exhausted = true;
                     break;
                 }
 
